@@ -201,6 +201,27 @@ func cmdSigs(args []string) int {
 				// validators of one committee share slot and committee index; most vote alike, some split
 				att.Atts = append(att.Atts, AttData{Dom: mkDomain(domAttester, byte(i)), Slot: uint64(i/4) * 3, Idx: uint64(i / 4), BBR: rng.Bytes(32),
 					Src: &Checkpoint{uint64(i % 3), rng.Bytes(32)}, Tgt: &Checkpoint{uint64(i%3) + 1 + uint64(i%2), rng.Bytes(32)}})
+				// every second entry is its predecessor's vote with exactly one field changed (another
+				// validator, the same domain): a root computed from a subset of the fields, or carried over
+				// from the neighbour, signs the wrong data
+				if i%2 == 1 {
+					prev := att.Atts[i-1]
+					d := AttData{Dom: prev.Dom, Slot: prev.Slot, Idx: prev.Idx, BBR: append([]byte{}, prev.BBR...),
+						Src: &Checkpoint{prev.Src.Epoch, append([]byte{}, prev.Src.Root...)}, Tgt: &Checkpoint{prev.Tgt.Epoch, append([]byte{}, prev.Tgt.Root...)}}
+					switch (i / 2) % 5 {
+					case 0:
+						d.Src.Root = rng.Bytes(32)
+					case 1:
+						d.Tgt.Root = rng.Bytes(32)
+					case 2:
+						d.BBR = rng.Bytes(32)
+					case 3:
+						d.Idx++
+					case 4:
+						d.Slot++
+					}
+					att.Atts[i] = d
+				}
 				multi.Addrs = append(multi.Addrs, g.addrFor(a))
 				multi.Signs = append(multi.Signs, SignData{Dom: mkDomain(domRandao, byte(i)), Data: rng.Bytes(32)})
 			}
